@@ -883,7 +883,9 @@ fn run_c18_case(rep: &mut Report, ws: &Workspace, case_seed: u64) {
             if it.kind == ide::CompletionItemKind::Keyword {
                 continue;
             }
-            if BUILTIN_VALUES.contains(&it.label.as_str()) {
+            // the five built-in constructors are ignored - unless the module binds that
+            // spelling itself (a constructor of its own or an import shadows the prelude)
+            if BUILTIN_VALUES.contains(&it.label.as_str()) && !h.visible.contains_key(it.label.as_str()) {
                 continue;
             }
             got.entry(it.label.to_string()).or_default().push(it);
